@@ -100,6 +100,7 @@ var bodyFiles = map[string]*facts.BodyFile{
 		Imports:   []string{"ScrapliModel.Bytes"},
 		Namespace: "Scrapli.Gen.Bodies.Response",
 		Fns: []*facts.FnSpec{
+			{Dir: "util", Name: "ByteContainsAny", Lean: "byteContainsAny"},
 			{Dir: "response", Recv: "NetconfResponse", Name: "record1dot0", Lean: "record1dot0",
 				Doc:     "`raw` = `r.RawResult`; state: `result` = `r.Result`.",
 				Binders: "(raw : Bytes)",
@@ -176,6 +177,8 @@ var bodyFiles = map[string]*facts.BodyFile{
 		Imports:   []string{"ScrapliModel.Priv"},
 		Namespace: "Scrapli.Gen.Bodies.Priv",
 		Fns: []*facts.FnSpec{
+			{Dir: "util", Name: "StringContainsAny", Lean: "stringContainsAny"},
+			{Dir: "util", Name: "StringSliceContains", Lean: "stringSliceContains"},
 			{Dir: "driver/network", Recv: "Driver", Name: "processAcquirePriv", Lean: "processAcquirePriv",
 				Doc: "`L` = `d.PrivilegeLevels` (association list keyed by `Name`), `possible` / `detErr` = what " +
 					"`determineCurrentPriv(currentPrompt)` returned, `path cur tgt` = `buildPrivChangeMap(cur, tgt, nil)`; " +
@@ -234,11 +237,20 @@ var bodyFiles = map[string]*facts.BodyFile{
 				}},
 		},
 	},
+	// C13: util/strings.go, response/response.go
+	"BodiesFailed.lean": {
+		Imports:   []string{"ScrapliModel.Failed"},
+		Namespace: "Scrapli.Gen.Bodies.Failed",
+		Fns: []*facts.FnSpec{
+			{Dir: "util", Name: "StringContainsAnySubStrs", Lean: "stringContainsAnySubStrs"},
+		},
+	},
 	// C15: transport/telnet.go
 	"BodiesTelnet.lean": {
 		Imports:   []string{"ScrapliModel.Telnet"},
 		Namespace: "Scrapli.Gen.Bodies.Telnet",
 		Fns: []*facts.FnSpec{
+			{Dir: "util", Name: "ByteIsAny", Lean: "byteIsAny"},
 			{Dir: "transport", Recv: "Telnet", Name: "handleControlCharResponse", Lean: "handleControlCharResponse",
 				Doc: "State: `data` = `t.initialBuf`, `replies` = the byte strings passed to `t.c.Write`, in order " +
 					"(every write is taken to succeed: it returns `len(b), nil`).",
